@@ -1,5 +1,5 @@
 """C02 - instant <-> civil datetime under a fixed offset (narrow)."""
-from ..rules_shape import floor_a, const_agree, req_dep
+from ..rules_shape import floor_a, const_agree, req_dep, split_pipeline
 
 
 def run(ctx, rep):
@@ -7,4 +7,5 @@ def run(ctx, rep):
     rep.notes.append("Does not decide exactness of the decomposition for all values.")
     floor_a(ctx, rep)
     req_dep(rep, prog)
+    split_pipeline(rep, prog)
     const_agree(rep, prog)
